@@ -142,8 +142,9 @@ structure VarB where
 abbrev Env := Nat → VarB
 
 /-! the literals of `constr_keeper.h` -/
-/-- `Pi()`: the double nearest to the decimal literal `3.14159265358979` (= 7074237752028433·2⁻⁵¹ < π) -/
-def piLit : Rat := 7074237752028433 / 2 ^ 51
+/-- `Pi()`: the double nearest to the literal `3.14159265358979323846`, i.e. the double nearest to π
+(= 884279719003555·2⁻⁴⁸ = 0x400921FB54442D18, below π by 1.22e-16) -/
+def piLit : Rat := 884279719003555 / 2 ^ 48
 def practInf : Rat := 100000000000000000000              -- `PracticallyInf()` = 1e20
 /-- `std::numeric_limits<double>::min()` = 2^-1022 and `max()` -/
 def dblMin : Rat := 1 / (2 ^ 1022)
@@ -295,9 +296,6 @@ inductive Decision where
   | alias (v : Nat)
   /-- the result is the result variable of another constraint, converted first with `AssignResultVar2Args` -/
   | redirect (con : Con)
-  /-- abs with `ub <= 0`: `AssignResult2Args(-x)` followed by `.get_var()` **without** testing `is_var()`
-  (with `NDEBUG` a constant result is re-read through the union as an `int`) -/
-  | redirectGetVar (con : Con) (orig : Con)
   /-- the model does not represent this case exactly -/
   | unsupported
   deriving Repr, Inhabited
@@ -324,7 +322,7 @@ def preproPow (e : Env) (a : Nat) (p : Rat) : Decision :=
 def preproAbs (e : Env) (a : Nat) : Decision :=
   let lb := (e a).lb; let ub := (e a).ub
   if le (fin 0) lb then .alias a
-  else if le ub (fin 0) then .redirectGetVar (.lin 0 [(-1, a)]) (.abs a)
+  else if le ub (fin 0) then .redirect (.lin 0 [(-1, a)])
   else .keep ((({} : Pre).narrow (fin 0) (smax (neg lb) ub)).setType (e a).int) (.abs a)
 
 /-- `FixEqualityResult` -/
@@ -511,7 +509,8 @@ structure State where
   fixed : List (ER × Nat) := []
   deriving Repr, Inhabited
 
-def State.env (s : State) : Env := fun i => s.vars.getD i { lb := nan, ub := nan, int := false }
+/-- bounds/type lookup; an index outside the model (never produced by the driver, which rejects it) reads as a free variable -/
+def State.env (s : State) : Env := fun i => s.vars.getD i { lb := ninf, ub := pinf, int := false }
 
 def State.addVarRaw (s : State) (b : VarB) (d : Option Con) : State × Nat :=
   ({ s with vars := s.vars.push b, defs := s.defs.push d }, s.vars.size)
@@ -585,20 +584,6 @@ def State.resultVar (sr : State × Res) : State × Option Nat :=
   | .var v => (sr.1, some v)
   | _ => (sr.1, none)
 
-/-- the low 32 bits of the IEEE-754 binary64 pattern of a positive normal double with value `q`, read as `int`
-(what `VarOrConst::get_var()` returns for a constant under `NDEBUG`: the union is not discriminated) -/
-def bitLen (fuel n : Nat) : Nat :=
-  match fuel with
-  | 0 => 0
-  | fuel + 1 => if n = 0 then 0 else bitLen fuel (n / 2) + 1
-
-def low32OfDouble (q : Rat) : Int :=
-  let n := q.num.natAbs
-  let l := bitLen 1100 n - 1
-  let m := if l ≤ 52 then n <<< (52 - l) else n >>> (l - 52)
-  let w : Nat := m % (2 ^ 32 : Nat)
-  if w < (2 ^ 31 : Nat) then Int.ofNat w else Int.ofNat w - 2 ^ 32
-
 /-- `FlatConverter::AssignResult2Args` -/
 def State.assign (s : State) (c : Con) : State × Res :=
   -- side effect on the argument (log, logA) happens inside PreprocessConstraint
@@ -614,15 +599,6 @@ def State.assign (s : State) (c : Con) : State × Res :=
       (match r.2 with
        | some v => (r.1, .var v)
        | none => (r.1, .unsupported))
-    | .redirectGetVar c2 orig =>
-      let (s1, r) := s.assignBase c2
-      (match r with
-       | .var v => (s1, .var v)
-       | .const (fin q) =>
-         let k := low32OfDouble q
-         -- a negative "variable" means `is_result_var_known()` is false: default bounds, new variable
-         if 0 ≤ k then (s1, .var k.toNat) else s1.finish {} orig
-       | _ => (s1, .unsupported))
     | .unsupported => (s, .unsupported)
     | _ => s.assignBase c
 
